@@ -842,3 +842,72 @@ def script_entry_case(run):
     finally:
         import subprocess
         subprocess.run(["rm", "-rf", base])
+
+
+def file_input_case(run):
+    """A single FILE given as input that lies below a directory an exclusion pattern matches (also a directory-only
+    pattern 'name/'): the whole input is excluded, nothing is written or printed (C15: every matching path)."""
+    import naming
+    base = tempfile.mkdtemp(prefix="verif_c15file_", dir="/dev/shm" if os.path.isdir("/dev/shm") else None)
+    try:
+        os.makedirs(os.path.join(base, "proj", "generated", "deep"))
+        os.makedirs(os.path.join(base, "home", ".config", "cminx"))
+        for rel in ("proj/generated/g.cmake", "proj/generated/deep/d.cmake", "proj/kept.cmake"):
+            with open(os.path.join(base, rel), "w") as fh:
+                fh.write(CMAKE_BODY.format(name=rel, ident=ident(rel)))
+        for pat in ("generated/", "gen*/", "**/generated/", os.path.join(base, "proj", "generated") + "/", "generated"):
+            for inp in ("proj/generated/g.cmake", "proj/generated/deep/d.cmake"):
+                for with_out in (True, False):
+                    out = os.path.join(base, "out_%s_%s_%s" % (ident(pat)[-12:], ident(inp)[-8:], with_out))
+                    exc, so = naming.run_main((["-o", out] if with_out else []) + ["-e", pat, inp], base, os.path.join(base, "home"))
+                    run.count("file-input-excluded:%s:%s:%s" % (pat, inp, with_out))
+                    wrote = sorted(os.listdir(out)) if os.path.isdir(out) else []
+                    # (with -o the log line that names the output directory goes to stdout; pages would not)
+                    if exc or wrote or (not with_out and so.strip()):
+                        run.violation({"argv": ["-e", pat, inp] + (["-o", "out"] if with_out else []), "features": {"file_input_below_excluded_directory": True}},
+                                      "no page, nothing printed", {"exc": exc, "written": wrote, "stdout": so[:200]},
+                                      "a file input below an excluded directory is documented")
+        # the control: a file that no pattern matches is documented
+        exc, so = naming.run_main(["-e", "generated/", "proj/kept.cmake"], base, os.path.join(base, "home"))
+        if exc or "f_" + ident("proj/kept.cmake") not in so:
+            run.violation({"argv": ["-e", "generated/", "proj/kept.cmake"], "features": {"file_input_not_excluded": True}}, "the page on stdout",
+                          {"exc": exc, "stdout": so[:200]}, "a file input that no pattern matches is not documented")
+    finally:
+        import subprocess
+        subprocess.run(["rm", "-rf", base])
+
+
+def single_file_output_case(run):
+    """C18 for single-file inputs: only <out>/<name>.rst is written, whatever else the output directory holds - a
+    hand-written index.rst included - stays byte for byte."""
+    import naming
+    base = tempfile.mkdtemp(prefix="verif_c18file_", dir="/dev/shm" if os.path.isdir("/dev/shm") else None)
+    try:
+        os.makedirs(os.path.join(base, "home", ".config", "cminx"))
+        for rel in ("one.cmake", "sub/two.cmake"):
+            os.makedirs(os.path.dirname(os.path.join(base, rel)) or base, exist_ok=True)
+            with open(os.path.join(base, rel), "w") as fh:
+                fh.write(CMAKE_BODY.format(name=rel, ident=ident(rel)))
+        for inputs in (["one.cmake"], ["one.cmake", "sub/two.cmake"]):
+            out = os.path.join(base, "out%d" % len(inputs))
+            os.makedirs(os.path.join(out, "guide"))
+            keep = {"index.rst": "My hand-written front page\n==========================\n", "guide/intro.rst": "Intro\n=====\n", "notes.txt": "n\n"}
+            for rel, txt in keep.items():
+                with open(os.path.join(out, rel), "w") as fh:
+                    fh.write(txt)
+            before = snapshot(base)
+            exc, so = naming.run_main(["-o", out] + inputs, base, os.path.join(base, "home"))
+            after = snapshot(base)
+            run.count("single-file-output:%d" % len(inputs))
+            created = sorted(p for p in after if p not in before)
+            changed = sorted(p for p in before if p in after and before[p] != after[p])
+            deleted = sorted(p for p in before if p not in after)
+            orel = os.path.relpath(out, base)
+            want = sorted(os.path.join(orel, os.path.basename(i)[:-len(".cmake")] + ".rst") for i in inputs)
+            if exc or created != want or changed or deleted:
+                run.violation({"argv": ["-o", "out"] + inputs, "prepopulated": sorted(keep), "features": {"single_file_inputs": True}},
+                              {"created": want, "changed": [], "deleted": []}, {"exc": exc, "created": created, "changed": changed, "deleted": deleted},
+                              "single-file inputs with -o: something besides their own pages was written, changed or deleted")
+    finally:
+        import subprocess
+        subprocess.run(["rm", "-rf", base])
